@@ -1,5 +1,5 @@
 CONSTANT KTab <- MC_KTab
-CONSTANT Kernels <- KMid
+CONSTANT Kernels <- KMid19
 CONSTANT NWs = {1, 2, 3, 5, 0}
 CONSTANT Timeouts = {TRUE, FALSE}
 CONSTANT TickEnabled = TRUE
